@@ -8,7 +8,11 @@
   CANON     the low-level routines whose raw result lies in [0, 2p) (modular addition, doubling, Montgomery and
             pseudo-Mersenne reduction) return only after the result was compared with the modulus or the modulus subtracted:
             a carry test alone leaves values in [p, 2^k) unreduced
+  CANON-CARRY  where a raw carry-returning addition into X is followed by the comparison of X with the modulus, the carry-out
+            is consulted by a branch (analysed also under FP_RDC=QUICK, where the small-constant forms use this idiom)
   CONST-IN  no function of the module stores through a parameter it declares const (summaries over the call graph)
+  ALIAS-RW  no input element is read in a later statement than a write of an output element that may be the same object
+            ("out==in aliasing"); see sa/py/relic_sa/alias.py
 """
 import re
 
@@ -17,6 +21,7 @@ from ..engines import Facts, key
 from ..facts import AnalysisBroken
 from .c03 import c05_line
 from . import c05
+from .. import alias
 
 EXPLANATION = (
     "Static decision of structural necessary conditions of C02 over the prime-field module under each analysed "
@@ -32,6 +37,12 @@ SQR = re.compile(r"^fp_sqr(_(basic|comba|multp|karat|integ))?$")
 EXP = re.compile(r"^fp_exp_(basic|slide|monty)$")
 CANON_SET = {"fp_addm_low": "sum of two residues", "fp_addc_low": "upper half of a double-precision sum", "fp_dblm_low": "double of a residue",
              "fp_rdcn_low": "Montgomery reduction", "fp_rdcs_low": "pseudo-Mersenne reduction"}
+
+
+ALIAS_OK = {
+    ("fp_inv_sim", "c", "a", "*", "fp_copy"): "batch inversion in place: element i of the input is read before element i of the output is written, later elements are untouched",
+    ("fp_inv_sim", "c", "a", "*", "fp_mul"): "as above (whichever multiplication variant the configuration selects)",
+}
 
 
 def base(fn):
@@ -85,16 +96,20 @@ def rule_exp(ctx, prog, chk):
 
         def edge_gen(node, label, atoms, bk=bk):
             out = []
+            st = engines.CURRENT.edge_state
             for at in atoms:
-                if at[0] == "cmp" and isinstance(at[1], tuple) and at[1][0] == "c" and at[1][1] == "bn_sign" and at[1][2] == (bk,):
+                if at[0] == "cmp" and isinstance(at[1], tuple) and at[1][0] == "c" and at[1][1] == "bn_sign" and len(at[1][2]) == 1 \
+                        and (at[1][2][0] == bk or ("ev", "copyof", at[1][2][0]) in st):
                     out.append(("ev", "signchk"))
-                if at[0] == "cmp" and isinstance(at[1], tuple) and at[1][0] == "m" and at[1][1] == bk and at[1][2] == "sign":
+                if at[0] == "cmp" and isinstance(at[1], tuple) and at[1][0] == "m" and at[1][2] == "sign" and (at[1][1] == bk or ("ev", "copyof", at[1][1]) in st):
                     out.append(("ev", "signchk"))
             return out
 
-        def gen(node, s, pre, fn=fn, c=c):
+        def gen(node, s, pre, fn=fn, c=c, bk=bk):
             out = []
             for cl in ir.calls_in(fn, node.el.e):
+                if cl[1] == "bn_copy" and len(cl[2]) == 2 and key(fn, cl[2][1]) == bk:
+                    out.append(("ev", "copyof", key(fn, cl[2][0])))     # its sign is the exponent's sign
                 if cl[1] == "fp_set_dig" and len(cl[2]) == 2 and key(fn, cl[2][0]) == ("v", c) and (ir.peel(fn, cl[2][1]) or [0, 0])[:2] == ["i", 1]:
                     out.append(("ev", "one"))
             return out
@@ -295,6 +310,66 @@ def rule_canon(ctx, prog, chk):
     return n, found
 
 
+RAW_ADDERS = re.compile(r"^(fp|bn)_(add1|addn|dbln|lsh1|addd)_low$")
+
+
+def rule_canon_carry(ctx, prog, chk):
+    """CANON-CARRY: where a function adds into X with a carry-returning raw adder and afterwards compares X with the
+    modulus (the [0,2p) correction idiom), the carry-out of that addition is consulted in a branch: the sum may exceed
+    2^k, where the comparison of the truncated digits says 'smaller'"""
+    n = 0
+    for fn in prog.all:
+        if not (fn.rfile.startswith(("src/fp/", "src/low/easy/relic_fp_")) or "selftest" in fn.file):
+            continue
+        cmps = set()
+        for el in fn.all_elements():
+            for c in ir.calls_in(fn, el.e):
+                if c[1] == "dv_cmp" and len(c[2]) >= 2:
+                    m = ir.peel(fn, c[2][1])
+                    if isinstance(m, list) and m[0] == "c" and m[1] == "fp_prime_get":
+                        bv = ir.base_var(fn, c[2][0])
+                        if bv is not None:
+                            cmps.add(bv)
+        if not cmps:
+            continue
+        # variables that occur in branch conditions
+        branched = set()
+        for b in fn.blocks.values() if isinstance(fn.blocks, dict) else fn.blocks:
+            t = getattr(b, "term", None)
+            if t and t.get("c") is not None:
+                for sub in ir.walk(fn, t["c"], follow_refs=True):
+                    if sub[0] == "v":
+                        branched.add(sub[1])
+        def refers(rhs, eid):
+            r = rhs
+            while isinstance(r, list) and r and r[0] == "k":
+                r = r[2]
+            return r == ["r", eid]
+        for el in fn.all_elements():
+            e = el.e
+            if not (e[0] == "c" and e[1] and RAW_ADDERS.match(e[1]) and e[2]):
+                continue
+            bv = ir.base_var(fn, e[2][0])
+            if bv not in cmps:
+                continue
+            holder = None
+            for el2 in fn.all_elements():
+                e2 = el2.e
+                if e2[0] == "d" and e2[2] is not None and refers(e2[2], el.id):
+                    holder = e2[1]
+                elif e2[0] == "=" and refers(e2[2], el.id):
+                    l = ir.strip_casts(e2[1])
+                    if isinstance(l, list) and l[0] == "v":
+                        holder = l[1]
+            n += 1
+            if holder is not None and holder in branched:
+                chk.ok("CANON-CARRY", fn, e[1], "carry-out of the raw addition into `%s` is consulted by a branch" % fn.vars[bv]["n"], line=el.line)
+            else:
+                chk.fail("CANON-CARRY", fn, e[1], "the carry-out of `%s` into `%s` is %s, yet `%s` is afterwards only compared with the modulus: a sum of 2^k or more wraps, compares as smaller and stays uncorrected" % (
+                    e[1], fn.vars[bv]["n"], "discarded" if holder is None else "never consulted by a branch", fn.vars[bv]["n"]), line=el.line)
+    return n
+
+
 def rule_const_in(ctx, prog, chk, prefix=("src/fp/", "src/low/easy/relic_fp")):
     pw = engines.param_writes(prog)
     n = 0
@@ -316,7 +391,12 @@ def analyse(ctx, prog, chk, floors=False):
     chk.used_program(prog)
     c = {"inv": rule_inv0(ctx, prog, chk), "exp": rule_exp(ctx, prog, chk), "srt": rule_srt(ctx, prog, chk)}
     c["canon"], found = rule_canon(ctx, prog, chk)
+    c["carry"] = rule_canon_carry(ctx, prog, chk)
     c["const"] = rule_const_in(ctx, prog, chk)
+    if prog.config in ("BASE", "P381") or getattr(prog, "library", None) is not None:
+        c["alias"], used = alias.rule(ctx, prog, chk, lambda fn: fn.rfile.startswith("src/fp/"), ALIAS_OK)
+    else:
+        c["alias"] = 0
     if floors:
         missing = set(CANON_SET) - found
         if missing:
@@ -335,5 +415,11 @@ def run(ctx, chk):
     chk.floor("SRT-VERDICT", "square-root functions", c["srt"], 1)
     chk.floor("CANON", "routines with a final conditional subtraction", c["canon"], 5)
     chk.floor("CONST-IN", "const pointer parameters of the module", c["const"], 100)
+    chk.floor("ALIAS-RW", "output/input pairs of the same handle type", c["alias"], 40)
     for cfg in ("P255", "P381"):
         analyse(ctx, ctx.program(cfg), chk, floors=True)
+    # the non-Montgomery paths (#if FP_RDC != MONTY) of the small-constant forms
+    from .. import facts
+    facts.CONFIGS.setdefault("FPQUICK", ["-DFP_METHD=INTEG;COMBA;COMBA;QUICK;EXGCD;LOWER;SLIDE"])
+    cq = analyse(ctx, ctx.program("FPQUICK"), chk, floors=True)
+    chk.floor("CANON-CARRY", "raw additions followed by the modulus comparison (FPQUICK)", cq["carry"], 1)
